@@ -252,7 +252,12 @@ func Plan(ctx context.Context, sql string, db *DB, o PlanOpts) (p *Planned, perr
 	}
 	var physLimit *physical.Expression
 	if outputOptions.Limit != nil {
-		e, err := typecheckExpr(ctx, *outputOptions.Limit, env.WithRecordSchema(physicalPlan.Schema), exprEnv())
+		// like cmd/root.go: the limit is typechecked without the record schema
+		e, err := typecheckExpr(ctx, *outputOptions.Limit, env, logical.Environment{
+			CommonTableExpressions: map[string]logical.CommonTableExpression{},
+			TableValuedFunctions:   tvfs,
+			UniqueNameGenerator:    uniqueNameGenerator,
+		})
 		if err != nil {
 			return nil, &PlanError{Stage: "typecheck", Err: err}
 		}
@@ -275,7 +280,7 @@ func Plan(ctx context.Context, sql string, db *DB, o PlanOpts) (p *Planned, perr
 	}
 	out.OrderDirs = logical.DirectionsToMultipliers(outputOptions.OrderByDirections)
 	if physLimit != nil {
-		ee, err := physLimit.Materialize(ctx, env.WithRecordSchema(physicalPlan.Schema))
+		ee, err := physLimit.Materialize(ctx, env)
 		if err != nil {
 			return nil, &PlanError{Stage: "materialize", Err: err}
 		}
